@@ -41,9 +41,9 @@ def _init_states(maxk):
 def cases(tier, seed):
     out = []
     if tier == 'thorough':
-        Ts, rng, ks = (4, 5, 6, 7), range(0, 4), 3
+        Ts, rng, ks = (1, 2, 3, 4, 5, 6, 7), range(0, 4), 3
     else:
-        Ts, rng, ks = (4,), range(0, 4), 2
+        Ts, rng, ks = (1, 2, 4), range(0, 4), 2       # T = 1, 2: forced prefixes (min runtime / downtime minus elapsed) longer than the horizon
     for T in Ts:
         for mr in rng:
             for md in rng:
@@ -72,6 +72,12 @@ PHYS_QUICK = [
     ('phys_plant_profiles', dict(T=4, heat=False, fuel=False, mr=0, md=0, tar=0, tao=1, ramp=True, sr=([1, 2], [1.5, 2.5]), sdr=([1], [2]))),
     ('phys_plant_quarter_hour_running', dict(T=3, heat=False, fuel=True, mr=0, md=0, tar=1, tao=0, ramp=True, last='sym', freq='15min')),
     ('phys_plant_profiles_mincap_series', dict(T=4, heat=False, fuel=False, mr=0, md=0, tar=0, tao=1, ramp=False, sr=([1, 2], [1.5, 2.5]), mincap_ts=True)),
+    # profiles as long as / longer than the horizon (rolling or split optimisation with short intervals)
+    ('phys_plant_profiles_longer_than_horizon', dict(T=2, heat=False, fuel=False, mr=0, md=0, tar=0, tao=1, ramp=True, sr=([1, 2, 2.5], [1.5, 2.5, 3]), sdr=([1, 2, 2.5], [2, 3, 3.5]))),
+    ('phys_plant_start_profile_running_T1', dict(T=1, heat=False, fuel=False, mr=0, md=0, tar=1, tao=0, ramp=True, last='sym', sr=([1, 2, 2.5], [1.5, 2.5, 3]))),
+    ('phys_plant_minruntime_beyond_horizon', dict(T=1, heat=False, fuel=True, mr=3, md=0, tar=1, tao=0, ramp=False)),
+    ('phys_plant_mindowntime_beyond_horizon', dict(T=2, heat=False, fuel=False, mr=2, md=4, tar=0, tao=1, ramp=False)),
+    ('phys_plant_shutdown_profile_T1', dict(T=1, heat=False, fuel=False, mr=0, md=0, tar=2, tao=0, ramp=True, last='sym', sdr=([1, 2], [2, 3]))),
 ]
 PHYS_THOROUGH = PHYS_QUICK + [
     ('phys_plant_ramp_T4', dict(T=4, heat=False, fuel=True, mr=2, md=2, tar=0, tao=1, ramp=True)),
@@ -223,7 +229,8 @@ def run_pattern(rec, seed, T, mr, md, tar, tao, heat, start_costs):
         if rec.vacuity(P, pre + F) is None:
             continue
         S = spec(on, T, mr, md, tar, tao)
-        rec.twin(P + '/sound', pre + F, z3.And(*[z3.Not(o) for o in on]) if tar == 0 else z3.And(*on))
+        forced_all = (tar > 0 and mr - tar >= T) or (tao > 0 and md - tao >= T)      # the declared state pins the whole horizon
+        rec.twin(P + '/sound', pre + F, z3.BoolVal(False) if forced_all else (z3.And(*[z3.Not(o) for o in on]) if tar == 0 else z3.And(*on)))
         rec.prove(P + '/sound', pre + F, S, form='Q4', info=dict(kind='sound', on=[ix[('bool_on', None)][t] for t in range(T)]))
         others = [V.raw[i] for i in range(lp.n) if i not in on_idx]
         # completeness: no pattern satisfying Spec is excluded by the rows -- for all parameter values in the domain
@@ -335,6 +342,11 @@ def run_physics(rec, seed, T, heat, fuel, mr, md, tar, tao, ramp, last=None, cf=
                     rec.prove(P + '/start_profile/%d/%d' % (t, j), assume,
                               z3.Implies(start[t - j] == 1, z3.And(virt[t] >= zl(lo) * dtv[t], virt[t] <= zl(hi) * dtv[t])), form='Q1',
                               info=dict(info0, ob='start_profile', t=t, j=j))
+            if 0 < tar < k_sr and t < k_sr - tar:
+                # started tar steps before the horizon: step t is position tar+t of the start profile
+                lo, hi = sr[0][tar + t], sr[1][tar + t]
+                rec.prove(P + '/start_profile_initial/%d' % t, assume, z3.And(virt[t] >= zl(lo) * dtv[t], virt[t] <= zl(hi) * dtv[t]), form='Q1',
+                          info=dict(info0, ob='start_profile_initial', t=t, j=tar + t))
             for j in range(k_sd):
                 if t + j + 1 < T:
                     lo, hi = sdr[0][j], sdr[1][j]
@@ -356,7 +368,9 @@ def run_physics(rec, seed, T, heat, fuel, mr, md, tar, tao, ramp, last=None, cf=
             d0 = virt[0] - ld
             free0 = z3.BoolVal(True)
             if has_start and (k_sr or k_sd):
-                free0 = z3.Not(in_profile(0))
+                # step -1 was position j of the shutdown profile if the plant is shut down at step j
+                before = z3.Or(*[shut[j] == 1 for j in range(min(k_sd, T))]) if k_sd else z3.BoolVal(False)
+                free0 = z3.And(z3.Not(in_profile(0)), z3.Not(before))
             consistent = [] if tar > 0 else [zl(pl.last_dispatch) == 0]
             rec.prove(P + '/ramp/0', assume + consistent, z3.Implies(free0, z3.And(d0 <= rp * dtv[0], -d0 <= rp * dtv[0])), form='Q1',
                       info=dict(info0, ob='ramp0'))
@@ -515,6 +529,10 @@ def judge(case, kwargs, cand, ans):
         p2 = dict(p, A=[p['A'][k] for k in keep], b=[p['b'][k] for k in keep], cType=''.join(p['cType'][k] for k in keep))
         r2 = scen.feasibility_residual(p2, x2)
         return r2 > 1e-6, 'step %d: clearing a start flag without transition makes the point infeasible (residual %.3g)' % (t, r2)
+    if ob == 'start_profile_initial':
+        t, j = info['t'], info['j']
+        lo, hi = kwargs['sr'][0][j] * dt[t], kwargs['sr'][1][j] * dt[t]
+        return (virt[t] < lo - tol or virt[t] > hi + tol), 'step %d is position %d of a start begun before the horizon: virtual output %.6g outside [%.6g,%.6g]' % (t, j, virt[t], lo, hi)
     if ob in ('start_profile', 'shutdown_profile'):
         j = info['j']
         prof = kwargs['sr'] if ob == 'start_profile' else kwargs['sdr']
